@@ -93,7 +93,7 @@ const (
 func (f *fsm) cleanup() {
 	if f.cancelDialFn != nil {
 		f.cancelDialFn()
-		<-f.dialResultCh
+		closeDialedConn(<-f.dialResultCh)
 	}
 	f.cleanupConnAndReader()
 	for _, t := range []*time.Timer{f.connectRetryTimer, f.holdTimer,
@@ -208,6 +208,14 @@ type dialResult struct {
 	err  error
 }
 
+// closeDialedConn closes the connection of a dial result that is being
+// discarded. The dial may have succeeded just as it was being cancelled.
+func closeDialedConn(dr *dialResult) {
+	if dr != nil && dr.conn != nil {
+		dr.conn.Close()
+	}
+}
+
 func (f *fsm) dialPeer() {
 	ctx, cancel := context.WithCancel(context.Background())
 	dialResultCh := make(chan *dialResult)
@@ -314,7 +322,7 @@ func (f *fsm) connect() fsmState {
 		select {
 		case <-f.closeCh:
 			f.cancelDialFn()
-			<-f.dialResultCh
+			closeDialedConn(<-f.dialResultCh)
 			f.connectRetryTimer.Stop()
 			return disabledState
 		case dr := <-f.dialResultCh:
